@@ -1,1 +1,92 @@
-(* placeholder: to be written *)
+(** Checker for the C19 execution matrix: tools/sys_access.py calls every endpoint (and argument
+    variant) of every contract as every caller role in every contract state on the REAL contracts
+    and records the outcome class; [check_entry] compares each cell with the model's [verdict_of].
+    Returns [] or [cell index; role id; state id; model verdict id; observed outcome id] for the
+    first cell that disagrees, or [-1; contract id; variant id] when the executed endpoint has no
+    row in the access table. *)
+From Coq Require Import ZArith List Bool Ascii.
+From Coq Require Export String.   (* the generated case files write endpoint names as "..."%string *)
+From MX Require Import Base.Prelude Gen.Params Gen.Endpoints Model.Access.
+Import ListNotations.
+Open Scope Z_scope.
+
+Definition contract_of_id (z : Z) : option contract :=
+  find (fun c => contract_id c =? z) all_contracts.
+
+Definition all_parties : list party :=
+  [PWhitelistedSC; PRouter; PUnstakeSC; POldFactory; PTransferSC; PEnergyFactory; PKnownContract; PAdder; PProposer].
+
+Definition all_roles : list role := base_roles ++ map RParty all_parties.
+
+Definition role_of_id (z : Z) : option role := find (fun r => role_id r =? z) all_roles.
+
+Definition cstate_of_id (z : Z) : option cstate :=
+  find (fun s => cstate_id s =? z) [Inactive; PartialActive; Active; Paused].
+
+Definition variant_of_id (z : Z) : option variant :=
+  find (fun v => variant_id v =? z) [VPlain; VOrigCaller; VForOther].
+
+Definition outcome_of_id (z : Z) : option outcome :=
+  find (fun o => outcome_id o =? z) [OOk; OPermErr; OStateErr; OOtherErr].
+
+(** one cell: (role id, state id, outcome id) *)
+Fixpoint check_cells (c : contract) (cl : class) (j : Z) (cells : list (Z * Z * Z)) : list Z :=
+  match cells with
+  | [] => []
+  | (rid, sid, oid) :: t =>
+      match role_of_id rid, cstate_of_id sid, outcome_of_id oid with
+      | Some r, Some s, Some o =>
+          if negb (existsb (role_eqb r) (roles_of c)) then [j; rid; sid; -2; oid]       (* role not defined for the contract *)
+          else if negb (existsb (cstate_eqb s) (states_of c)) then [j; rid; sid; -3; oid]
+          else
+            let v := verdict_of c cl r s in
+            if agrees v o then check_cells c cl (j + 1) t
+            else [j; rid; sid; verdict_id v; oid]
+      | _, _, _ => [j; rid; sid; -4; oid]
+      end
+  end.
+
+Definition check_entry (cid : Z) (e : string) (vid : Z) (cells : list (Z * Z * Z)) : list Z :=
+  match contract_of_id cid, variant_of_id vid with
+  | Some c, Some v =>
+      match lookup c e v with
+      | Some cl => check_cells c cl 0 cells
+      | None => [-1; cid; vid]
+      end
+  | _, _ => [-1; cid; vid]
+  end.
+
+(** ------------------------------------------------------------------ table dump for the harness
+    (so that the Python side reads the classification from the compiled model, not from text) *)
+Definition guard_code (g : guard) : Z * Z :=
+  match g with
+  | GLifecycle => (0, 0) | GOnlyOwner => (1, 0) | GPerm m => (2, m) | GParty p => (3, party_id p)
+  | GOwnerOrOpen => (4, 0) | GHub => (5, 0) | GNobody => (6, 0) | GQuery => (7, 0) | GAnyone => (8, 0)
+  end.
+
+Definition sreq_code (s : sreq) : Z :=
+  match s with SAny => 0 | SActive => 1 | SLiquidity => 2 | SBootstrap => 3 | SPausedOnly => 4 end.
+
+Definition string_codes (s : string) : list Z :=
+  map (fun a => Z.of_nat (nat_of_ascii a)) (list_ascii_of_string s).
+
+Definition row_codes (r : row) : list Z :=
+  let cl := row_class r in
+  let n := string_codes (row_endpoint r) in
+  [contract_id (row_contract r); variant_id (row_variant r); fst (guard_code (c_guard cl));
+   snd (guard_code (c_guard cl)); sreq_code (c_sreq cl); kind_id (c_kind cl); Z.of_nat (length n)] ++ n.
+
+Definition table_codes : list Z := flat_map row_codes access_table.
+
+(** roles and states of the executed configuration, per contract:
+    [contract id; #roles; role ids...; #states; state ids...] *)
+Definition config_codes : list Z :=
+  flat_map (fun c => [contract_id c; Z.of_nat (length (roles_of c))] ++ map role_id (roles_of c)
+                     ++ [Z.of_nat (length (states_of c))] ++ map cstate_id (states_of c)) all_contracts.
+
+(** every verdict of the model, in table order, for the roles and states of the row's contract
+    (role-major); used by the harness only to report what the model expected *)
+Definition row_verdicts (r : row) : list Z :=
+  let c := row_contract r in
+  flat_map (fun ro => map (fun st => verdict_id (verdict_of c (row_class r) ro st)) (states_of c)) (roles_of c).
+Definition verdict_codes : list Z := flat_map row_verdicts access_table.
